@@ -578,14 +578,15 @@ def run(repo: Repo, rep: Report, tier: str) -> None:
         if nd.kind != "stmt" or nd.ast is None or nd.copy:
             continue
         for c in calls_in(nd.ast):
-            if isinstance(c.func, ast.Attribute) and c.func.attr in ("items", "multi_items") and isinstance(c.func.value, ast.Name):
+            if isinstance(c.func, ast.Attribute) and c.func.attr in ("items", "multi_items"):
                 n13 += 1
-                if c.func.attr == "items" and c.func.value.id in caller_vals:
+                src13 = [x.id for x in ast.walk(c.func.value) if isinstance(x, ast.Name) and x.id in caller_vals]
+                if c.func.attr == "items" and src13:
                     up = parent(c)
                     spliced = isinstance(up, ast.Starred) or (isinstance(up, ast.Call) and dotted(up.func) in ("list", "tuple"))
                     if spliced:
                         bad13 += 1
-                        rep.violation("R17.13", f"{tmod7.relpath}:HttpxTransport._prepare_headers pairs made of the caller's `{c.func.value.id}`",
+                        rep.violation("R17.13", f"{tmod7.relpath}:HttpxTransport._prepare_headers pairs made of the caller's `{src13[0]}`",
                                       f"{prep7.fq}|caller-mapping-flattened-to-pairs",
                                       f"`{norm(up)[:60]}` turns the caller's mapping into (name, value) pairs: a list value - an array query parameter, which httpx "
                                       "repeats per element in mapping form - becomes one pair whose value is rendered with str() (`tags=%5B%27a%27%2C+%27b%27%5D`)", prep7.loc(c))
